@@ -398,3 +398,27 @@ pub fn run(path: &str, seed: u64, samples: usize) -> Result<Value, String> {
               "predicate_checks": tot.preds, "comparison_checks": tot.cmps, "bit_identical_to_std": tot.bit_identical,
               "same_call_rows_not_bit_identical": tot.drift, "ops": tot.ops, "known": tot.known, "n_violations": tot.n_viol, "violations": tot.viol}))
 }
+
+// ---------------------------------------------------------------- developer probe: one call, printed
+struct Probe<'a> { key: &'a str, op: &'a str, x: f64, y: f64, s: f64, n: i32 }
+impl<'a> TypeFn for Probe<'a> {
+    type Out = Result<String, String>;
+    fn call<T: Calc>(self) -> Self::Out {
+        let body = self.key.rsplit_once(':').unwrap().0;
+        let desc = parse_desc(body);
+        let mut k = 0usize;
+        let mut leaf = || -> f64 { k += 1; ((k * 37 % 17) as f64 - 8.0) / 4.0 + 0.125 };
+        let a = T::from_json(&build(Some(&desc), self.x, true, &mut leaf, false))?;
+        let b = T::from_json(&build(Some(&desc), self.y, true, &mut leaf, false))?;
+        let ev = Ev { op: self.op.to_string(), form: String::new(), a: 1, b: 2, c: 2, d: 1, s: self.s, n: self.n, rs: vec![], v: Value::Null };
+        match T::apply(&[a.clone(), b], &ev)? {
+            Out::Val(v) => Ok(format!("{}({}) = {}", self.op, a.show(), v.show())),
+            Out::Bool(b) => Ok(format!("{b}")),
+            Out::Re(r) => Ok(format!("{r:e}")),
+            Out::Unsupported => Ok("unsupported".into()),
+        }
+    }
+}
+pub fn probe(key: &str, op: &str, x: f64, y: f64, s: f64, n: i32) -> Result<String, String> {
+    dispatch(key, Probe { key, op, x, y, s, n }).ok_or("unknown key")?
+}
